@@ -48,8 +48,14 @@ OPEN_TITLES = {k: v[2] for k, v in PINNED.items()}
 FIXED_COMMITS = {"K-catch-pop": "790993c", "K-stale-error-ip-a": "4f459d5", "K-stale-error-ip-b": "4f459d5"}
 
 # ---- other properties: (property, id, status, commit, title, scenario dict)
-from sim.props import c09, c15
+from sim.props import c09, c15, c12
 OTHER = [
+ ("C12", "K-map-keys-untraced", "fixed", "9f27374",
+  "the collector did not trace HashMap keys: a tuple (or range) alive only as a map key was reclaimed while the map still held it",
+  {"ir": {"nmaps": 1, "ops": [["insert", 0, "t_a1", ["vn", 1]], ["churn", 2], ["keys", 0], ["get", 0, "t_a1_c"]]}, "gc_tape": "ff" * 64}),
+ ("C12", "K-negative-zero-hash", "fixed", "158fd42",
+  "0 and -0 are == but hashed differently, so they denoted two different map entries",
+  {"ir": {"nmaps": 1, "ops": [["lit", 0, [["negzero", ["vn", 5]]]], ["get", 0, "zero"], ["insert", 0, "zero", ["vn", 6]], ["len", 0]]}, "gc_tape": ""}),
  ("C09", "K-yield-resumed-without-argument", "fixed", "0c8452d",
   "a `Fiber.yield(...)` expression resumed by `call()` without an argument evaluated to <class Fiber> instead of nil",
   {"ir": {"fibers": [{"param": 0, "kind": "gen", "body": [["yield", True], ["ev", 1]]}, {"param": 0, "kind": "gen", "body": [["mix"]]}],
@@ -82,12 +88,12 @@ def main():
         else:
             entries.append({"id": name, "property": "C08", "status": "fixed", "commit": FIXED_COMMITS[name], "title": title,
                             "scenario": "findings/C08/%s.json" % name, "record": "fixed: property=C08 %s %s" % (FIXED_COMMITS[name], title)})
-    props = {"C09": c09.PROP, "C15": c15.PROP}
+    props = {"C09": c09.PROP, "C15": c15.PROP, "C12": c12.PROP}
     for pid, name, status, commit, title, sc in OTHER:
         d = os.path.join(build.ROOT, "findings", pid)
         os.makedirs(d, exist_ok=True)
         sc = dict(sc, finding=name, title=title, ignore_taint=True)
-        res = props[pid].check(sc, ctx) if pid == "C09" else props[pid].check_one(sc, ctx, Stats())
+        res = props[pid].check_one(sc, ctx, Stats()) if pid == "C15" else props[pid].check(sc, ctx)
         v = res.get("violation")
         print("%s %-32s %s" % (pid, name, (v["class"] + ": " + v["msg"][:110]) if v else "passes on this tree"))
         with open(os.path.join(d, name + ".json"), "w") as f:
